@@ -757,13 +757,15 @@ class SV:
         return self
 
     def _fn(self, name):
-        v = SV(uf('fn_' + name, R, R)(purify(to_real(self.e))))
+        arg = purify(to_real(self.e))
+        v = SV(uf('fn_' + name, R, R)(arg))
         c = cur()
         if name == 'exp':
             c.fact(v.e > 0)
             c.mark_pos(v.e)
         if name == 'sqrt':
             c.fact(v.e >= 0)
+            c.fact((arg == 0) == (v.e == 0))
         return v
 
     def sqrt(self):
